@@ -17,8 +17,12 @@ END_FUNCTION_BLOCK
 # declares LEVEL again (a cross-document problem when T_VALID is open too), far beyond the length of the other texts and
 # after multi-byte characters: the labels of one diagnostic then lie in two documents of very different sizes
 T_DUP = "(* " + "gr\u00f6\u00dfe \u20ac " * 40 + "*)" + "\n" * 3 + "TYPE LEVEL : (LOW, HIGH, TOP) := LOW; END_TYPE\nFUNCTION_BLOCK FB_X\nVAR a : INT; END_VAR\na := 1;\nEND_FUNCTION_BLOCK\n"
-TEXTS = {1: T_VALID, 2: T_LEX, 3: T_SYN, 4: T_SEM, 5: T_DEP, 6: T_DUP}
-NAMES = {0: "-", 1: "valid", 2: "lexical-error", 3: "syntax-error", 4: "semantic-error", 5: "depends-on-other", 6: "duplicates-the-type-of-valid"}
+# a document whose syntax tree is deep (a sum of 300 operands, 60 nested IFs) - well inside what `check` handles; only the
+# random histories use it (text 7)
+T_DEEP = ("FUNCTION_BLOCK FB_DEEP\nVAR a : INT; f : BOOL; END_VAR\na := " + " + ".join(["1"] * 300) + ";\n" + "IF f THEN\n" * 60 + "a := 2;\n" +
+          "END_IF;\n" * 60 + "a := ghost;\nEND_FUNCTION_BLOCK\n")
+TEXTS = {1: T_VALID, 2: T_LEX, 3: T_SYN, 4: T_SEM, 5: T_DEP, 6: T_DUP, 7: T_DEEP}
+NAMES = {7: "deep", 0: "-", 1: "valid", 2: "lexical-error", 3: "syntax-error", 4: "semantic-error", 5: "depends-on-other", 6: "duplicates-the-type-of-valid"}
 # vacuity guard: the comment of T_DUP is closed once (a stray second '*)' made the text a syntax error for a whole session:
 # the cross-document clause was vacuous)
 assert T_DUP.count("*)") == 1 and T_DUP.count("(*") == 1
